@@ -25,7 +25,6 @@ class State:
 
 def gen_script(rng, max_ops, profile):
     T = rng.pick(profile.get('threads', [0]))
-    T = min(T, MAXTHREADS - 1)
     pals = list(profile.get('pals', [0, 1, 2, 3]))
     rng_p = pals[:]
     # registration order is script-chosen
@@ -88,14 +87,54 @@ def gen_script(rng, max_ops, profile):
     def value():
         return rng.range(1, 900)
 
+    stale = profile.get('stale', 0)
     for _ in range(nops):
         tid = rng.below(T + 1) if (depth > 0 and armed) else 0
+        if stale and rng.chance(stale, 100):
+            # the malformed stream: a checked entry point through a dead, null, foreign or never-issued handle
+            r = rng.below(100)
+            if r < 55 and st.n > 0:
+                tok = '#%d' % rng.below(st.n)                      # any handle ever issued, mostly dead or alive
+            elif r < 70:
+                tok = 'null'
+            elif r < 85 and st.n > 0:
+                tok = 'w%d' % rng.below(st.n)                      # same id and version, another world
+            else:
+                tok = 'x%016x' % (rng.next() | (1 << 35))          # arbitrary pattern with a foreign world id
+            opn = rng.pick(['valid', 'getconst', 'getmut', 'has', 'destroy', 'destroynow', 'remove', 'markdirty', 'archof', 'clone', 'removeshared'])
+            if depth and opn in ('clone', 'removeshared'):
+                opn = 'valid'
+            if opn in ('getconst', 'getmut', 'has', 'markdirty'):
+                lines.append('%s %s %d' % (opn, tok, rng.pick(pals)))
+            elif opn in ('destroy', 'destroynow'):
+                lines.append('%s %d %s' % (opn, tid, tok))
+                if tok.startswith('#'):
+                    h = int(tok[1:])
+                    if opn == 'destroynow':
+                        if depth:
+                            st.pending_dead.add(h)
+                        else:
+                            st.comps.pop(h, None)
+                    else:
+                        (st.pending_marked if depth else st.marked).add(h)
+            elif opn == 'remove':
+                sp = [p for p in pals if p < 8]
+                if sp and not (tok.startswith('#') and (int(tok[1:]) in st.comps or int(tok[1:]) in st.pending_new)):
+                    lines.append('remove %d %s %d' % (tid, tok, rng.pick(sp)))
+            elif opn == 'removeshared':
+                lines.append('removeshared %s 0' % tok)
+            elif opn == 'clone':
+                if not (tok.startswith('#') and int(tok[1:]) in st.comps):
+                    lines.append('clone %s' % tok)
+            else:
+                lines.append('%s %s' % (opn, tok))
+            continue
         choice = rng.weighted([(k, w) for k, w in W.items() if w > 0])
         if choice == 'create':
             k = rng.range(0, min(3, len(pals)))
             cs = sorted(set(rng.pick(pals) for _ in range(k)))
             sh = []
-            if spals and depth == 0 and rng.chance(1, 5):
+            if spals and depth == 0 and profile.get('create_shared', True) and rng.chance(1, 5):
                 sh = ['s%d' % rng.pick(spals)]
             op = 'createarch' if (profile.get('createarch') and rng.chance(1, 6)) else 'create'
             lines.append(('%s %d %s' % (op, tid, ' '.join(map(str, cs + sh)))).rstrip())
@@ -156,6 +195,8 @@ def gen_script(rng, max_ops, profile):
                 added = st.pending_comps.get(h, (set(), set()))[0]
                 cand = [p for p in cand if p not in masters and p not in added]
                 if deps and h in st.pending_new:
+                    cand = []
+                if profile.get('no_pending_remove') and h in st.pending_new:
                     cand = []
             if not cand:
                 continue
@@ -253,6 +294,8 @@ def gen_script(rng, max_ops, profile):
             armed = False
         lines.append('unlock')
         depth -= 1
+    if profile.get('teardown_anywhere'):
+        return lines[:rng.range(len(lines) * 2 // 3, len(lines))] + ['teardown']
     lines.append('update')
     return lines
 
@@ -279,3 +322,36 @@ def corpus(prop):
          ['set #%d 0 %d' % (i, 10 + i) for i in range(7)] + ['destroynow 0 #0', 'destroynow 0 #3', 'destroynow 0 #6', 'assign 0 #1 3 5', 'remove 0 #2 0', 'clone #4']),
     ]
     return c.get(prop, [])
+
+
+def profile(name):
+    p = dict(PROFILE_BASIC)
+    p['weights'] = dict(PROFILE_BASIC['weights'])
+    if name == 'C03':
+        p['pals'] = [0, 2, 3, 5, 8, 9]
+        p['dynflags'] = [31, 63, 0, 32]
+        p['teardown_anywhere'] = True
+        p['threads'] = [0, 1, 2]
+        p['weights'].update({'lock': 9, 'unlock': 7, 'assign': 18, 'remove': 12, 'clone': 4})
+    elif name == 'C05':
+        p['threads'] = [1, 2, 3, 4]
+        p['pals'] = [0, 1, 2, 3, 4, 5, 7, 8]
+        p['weights'].update({'lock': 12, 'unlock': 8, 'create': 22, 'assign': 18, 'remove': 12, 'destroynow': 12, 'destroy': 6})
+    elif name == 'C09':
+        p['stale'] = 30
+        p['threads'] = [0, 1, 2]
+        p['shared'] = [0]
+        p['create_shared'] = False
+        p['weights'].update({'assignshared': 3, 'removeshared': 1})
+    elif name == 'C12':
+        p['shared'] = [0, 1]
+        p['create_shared'] = False     # known finding C12/creation-time-shared-instance
+        p['pals'] = [0, 1, 2, 3]
+        p['threads'] = [0, 1]
+        p['weights'].update({'assignshared': 16, 'removeshared': 7, 'create': 20, 'lock': 4, 'unlock': 6})
+    elif name == 'C13':
+        p['deps'] = 100
+        p['pals'] = [0, 1, 2, 3, 5, 8, 9]
+        p['dynflags'] = [32, 31, 63, 0]
+        p['threads'] = [0, 1, 2]
+    return p
